@@ -228,19 +228,10 @@ package geometry
 
 //@ spec func le32(d []byte, o int) int { d[o] + 256*d[o+1] + 65536*d[o+2] + 16777216*d[o+3] }
 // well-formedness of the compressed indexes (defined further below)
-//@ spec func RWFtop(d []byte, pts []Point, closed bool) bool
 //@ spec func indexBytesOK(s *baseSeries, d []byte) bool {
 //@     len(d) >= 5 && 5 <= le32(d,1) && le32(d,1) <= len(d) && (d[0] == 1 || d[0] == 2) &&
 //@     (d[0] == 1 ==> RWFtop(slice(d, 0, le32(d,1)), s.points, s.closed)) && (d[0] == 2 ==> QWFtop(slice(d, 0, le32(d,1)), s.points, s.closed, s.rect)) }
 //@ spec func IndexInv(s *baseSeries) bool { s.index == nil || (isBytes(s.index) && indexBytesOK(s, unboxBytes(s.index))) }
-
-//@ func rCompressSearch
-//@   props C04
-//@   arith order
-//@   trusted search side of the compressed R-tree not yet under contract
-//@   requires series != nil && addr == 5 && RWFtop(data, series.points, series.closed)
-//@   iter iter(item) dom 0 <= item && item < bsNseg(series) ; match rectsMeet(segRect(bsSeg(series, item)), rect) ; args bsSeg(series, item), item
-//@   ensures result == !stopped
 
 //@ func baseSeries.Search
 //@   props C04 C01
@@ -958,3 +949,98 @@ package geometry
 //@   proto ret2 use insideNoMeet(segRectOf(series.points, $j), quadOf(bounds, 1), rect)
 //@   proto ret2 use insideNoMeet(segRectOf(series.points, $j), quadOf(bounds, 2), rect)
 //@   proto ret2 use insideNoMeet(segRectOf(series.points, $j), quadOf(bounds, 3), rect)
+
+// ---------------------------------------------------------------- C04: compressed R-tree, search side
+// node layout at address a:  min.x min.y max.x max.y (4 x 8 bytes) | count | leaf: width, count items | branch: count x 4-byte child address
+
+//@ spec func rRectAt(d []byte, a int) Rect { mkRect(mkPoint(f64at(d,a), f64at(d,a+8)), mkPoint(f64at(d,a+16), f64at(d,a+24))) }
+//@ spec func rCount(d []byte, a int) int { d[a+32] }
+//@ spec func rW(d []byte, a int) int { d[a+33] }
+//@ spec func rItem(d []byte, a int, k int) int { numAt(d, a+34+k*rW(d,a), rW(d,a)) }
+//@ spec func rKid(d []byte, a int, k int) int { le32(d, a+33+4*k) }
+//@ spec func rInLeaf(d []byte, a int, k int, i int) bool rec { k > 0 && (rInLeaf(d,a,k-1,i) || rItem(d,a,k-1) == i) }
+//@ spec func rInKids(d []byte, a int, h int, k int, i int) bool rec 1 { k > 0 && (rInKids(d,a,h,k-1,i) || rIn(d, rKid(d,a,k-1), h-1, i)) }
+//@ spec func rIn(d []byte, a int, h int, i int) bool rec 1 { ite(h <= 0, rInLeaf(d,a,rCount(d,a),i), rInKids(d,a,h,rCount(d,a),i)) }
+
+//@ spec func rLeafNoDup(d []byte, a int) bool { forall k1 int, k2 int :: 0 <= k1 && k1 < k2 && k2 < rCount(d,a) ==> rItem(d,a,k1) != rItem(d,a,k2) }
+//@ spec func rLeafOK(d []byte, a int, ps []Point, cl bool) bool {
+//@     a+34 <= len(d) && a+34+rCount(d,a)*widthOf(rW(d,a)) <= len(d) && (rW(d,a) == 1 || rW(d,a) == 2 || rW(d,a) == 4) &&
+//@     (forall k int :: 0 <= k && k < rCount(d,a) ==> 0 <= rItem(d,a,k) && rItem(d,a,k) < nsegOf(ps,cl)) && rLeafNoDup(d,a) }
+//@ spec func rKidsOK(d []byte, a int, h int, ps []Point, cl bool) bool {
+//@     a+33+4*rCount(d,a) <= len(d) &&
+//@     (forall k int :: 0 <= k && k < rCount(d,a) ==> (a < rKid(d,a,k) && rKid(d,a,k) < len(d) && RWF(d, rKid(d,a,k), h-1, ps, cl))) &&
+//@     (forall k1 int, k2 int, i int :: 0 <= k1 && k1 < k2 && k2 < rCount(d,a) ==> !(rIn(d, rKid(d,a,k1), h-1, i) && rIn(d, rKid(d,a,k2), h-1, i))) }
+//@ spec func rCovers(d []byte, a int, h int, ps []Point) bool { forall i int :: rIn(d,a,h,i) ==> rectInside(segRectOf(ps,i), rRectAt(d,a)) }
+// well-formed subtree of height h at address a (hidden: unfolded only by the lemmas below)
+//@ spec func RWF(d []byte, a int, h int, ps []Point, cl bool) bool rec hidden {
+//@     0 <= a && 0 <= h && a+33 <= len(d) && rCovers(d,a,h,ps) && ite(h <= 0, rLeafOK(d,a,ps,cl), rKidsOK(d,a,h,ps,cl)) }
+// the whole index: either no root at all (no segments), or a height byte at offset 5 and a well-formed root holding every segment
+//@ spec func RWFtop(d []byte, ps []Point, cl bool) bool {
+//@     (len(d) == 5 && nsegOf(ps,cl) == 0) ||
+//@     (len(d) > 6 && RWF(d, 6, d[5], ps, cl) && (forall i int :: (0 <= i && i < nsegOf(ps,cl)) == rIn(d, 6, d[5], i))) }
+
+//@ lemma rwfNode(d []byte, a int, h int, ps []Point, cl bool)
+//@   props C04
+//@   reveal RWF
+//@   requires RWF(d,a,h,ps,cl)
+//@   ensures 0 <= a && 0 <= h && a+33 <= len(d) && rCovers(d,a,h,ps) && (h <= 0 ==> rLeafOK(d,a,ps,cl)) && (h > 0 ==> rKidsOK(d,a,h,ps,cl))
+//@ lemma rInLeafWitness(d []byte, a int, k int, k0 int)
+//@   props C04
+//@   requires 0 <= k0 && k0 < k
+//@   ensures rInLeaf(d, a, k, rItem(d,a,k0))
+//@   induction k
+//@ lemma rNotInPrefix(d []byte, a int, k int, k2 int)
+//@   props C04
+//@   requires rLeafNoDup(d,a) && 0 <= k && k <= k2 && k2 < rCount(d,a)
+//@   ensures !rInLeaf(d, a, k, rItem(d,a,k2))
+//@   induction k
+//@ lemma rInLeafMono(d []byte, a int, k1 int, k2 int, j int)
+//@   props C04
+//@   requires k1 <= k2 && rInLeaf(d,a,k1,j)
+//@   ensures rInLeaf(d,a,k2,j)
+//@   induction k2
+//@ lemma rInKidsMono(d []byte, a int, h int, k1 int, k2 int, j int)
+//@   props C04
+//@   requires k1 <= k2 && rInKids(d,a,h,k1,j)
+//@   ensures rInKids(d,a,h,k2,j)
+//@   induction k2
+//@ lemma rKidIn(d []byte, a int, h int, k int, k0 int, j int)
+//@   props C04
+//@   requires 0 <= k0 && k0 < k && rIn(d, rKid(d,a,k0), h-1, j)
+//@   ensures rInKids(d,a,h,k,j)
+//@   induction k
+//@ lemma rKidsNotIn(d []byte, a int, h int, ps []Point, cl bool, k int, k2 int, j int)
+//@   props C04
+//@   requires rKidsOK(d,a,h,ps,cl) && 0 <= k && k <= k2 && k2 < rCount(d,a) && rIn(d, rKid(d,a,k2), h-1, j)
+//@   ensures !rInKids(d,a,h,k,j)
+//@   induction k
+
+//@ func rnCompressSearch
+//@   props C04
+//@   arith order
+//@   requires series != nil && RWF(data, addr, height, series.points, series.closed)
+//@   iter iter(item) dom rIn(data, addr, height, item) ; match rectsMeet(segRectOf(series.points, item), rect) ; args bsSeg(series, item), item
+//@   ensures result == !stopped
+//@   decreases height
+//@   entry use rwfNode(data, addr, height, series.points, series.closed)
+//@   loop 0 invariant Pos: 0 <= i && i <= count && count == rCount(data, old(addr)) && ibytes == rW(data, old(addr)) && height <= 0 && addr == old(addr)+34+i*ibytes && !stopped
+//@   loop 0 invariant Seen: forall j int :: seen[j] == (old(seen)[j] || (rInLeaf(data, old(addr), i, j) && rectsMeet(segRectOf(series.points, j), rect)))
+//@   loop 0 decreases count - i
+//@   loop 0 begin use rInLeafWitness(data, old(addr), count, i)
+//@   loop 0 begin use rNotInPrefix(data, old(addr), i, i)
+//@   loop 1 invariant Pos: 0 <= i && i <= count && count == rCount(data, old(addr)) && height > 0 && addr == old(addr)+33+4*i && !stopped
+//@   loop 1 invariant Seen: forall j int :: seen[j] == (old(seen)[j] || (rInKids(data, old(addr), height, i, j) && rectsMeet(segRectOf(series.points, j), rect)))
+//@   loop 1 decreases count - i
+//@   proto ret0 use insideNoMeet(segRectOf(series.points, $j), rRectAt(data, addr), rect)
+//@   proto ret1 use rInLeafMono(data, addr, i, rCount(data, addr), $j)
+//@   proto ret3 use rInKidsMono(data, addr, height, i+1, rCount(data, addr), $j)
+//@   proto ret3 use rKidIn(data, addr, height, i+1, i, $j)
+//@   proto call6 use rKidsNotIn(data, addr, height, series.points, series.closed, i, i, $j)
+//@   proto call6 use rKidIn(data, addr, height, rCount(data, addr), i, $j)
+
+//@ func rCompressSearch
+//@   props C04
+//@   arith order
+//@   requires series != nil && addr == 5 && RWFtop(data, series.points, series.closed)
+//@   iter iter(item) dom 0 <= item && item < bsNseg(series) ; match rectsMeet(segRectOf(series.points, item), rect) ; args bsSeg(series, item), item
+//@   ensures result == !stopped
